@@ -1,13 +1,17 @@
 #!/bin/sh
-# re-runs every filed seeded change against its owning check (quick tier); prints caught / MISSED per change
-cd /verif
-[ -z "$(git -C /repo status --short)" ] || { echo "/repo not clean"; exit 2; }
-for d in seeded/*/; do
-  id=$(basename $d)
+# re-runs every filed seeded change against its owning check (quick tier); prints caught / MISSED per change.
+# The tree to patch is $PYOAK_REPO (default /repo; use a scratch worktree to leave /repo alone); optional args: ids to run
+cd "$(dirname "$0")/.." || exit 2
+R="${PYOAK_REPO:-/repo}"
+[ -z "$(git -C $R status --short)" ] || { echo "$R not clean"; exit 2; }
+(cd lean && lake build >/dev/null 2>&1)
+list=${*:-$(ls seeded)}
+for id in $list; do
+  d=seeded/$id
   prop=$(python3 -c "import json;print(json.load(open('$d/meta.json'))['breaks_property'])")
-  git -C /repo apply /verif/$d/patch.diff 2>/dev/null || { echo "$id: patch does not apply (repo moved on)"; continue; }
-  out=$(./check $prop quick 2>&1); rc=$?
-  git -C /repo checkout -- .
+  git -C $R apply $PWD/$d/patch.diff 2>/dev/null || { echo "$id: patch does not apply (repo moved on)"; continue; }
+  out=$(PYOAK_REPO=$R ./check $prop quick 2>&1); rc=$?
+  git -C $R checkout -- .
   n=$(echo "$out" | grep -c '^VIOLATION')
   if [ $rc -eq 1 ] && [ $n -gt 0 ]; then echo "$id ($prop): caught ($n)"; else echo "$id ($prop): MISSED rc=$rc"; fi
 done
